@@ -409,6 +409,18 @@ func (w *World) Exec(op hx.Zs) (out []hx.Zs) {
 				ret = d
 			}
 		case 1:
+			// a bare data object has no FunctionData in front of it that would run the update on a
+			// copy: when the call panics half-way, the object is put back as it was before the call
+			// (the partial in-place effects of a panicking call are not modelled; panics are C05's subject)
+			before, _ := json.Marshal(w.obj.Interface())
+			defer func() {
+				if e := recover(); e != nil {
+					fresh := reflect.New(w.ti.T)
+					_ = json.Unmarshal(before, fresh.Interface())
+					w.obj = fresh
+					panic(e)
+				}
+			}()
 			d, ok := w.obj.Interface().(model.Updater).UpdateList(remote != 0, persist != 0, data.Interface(), fp, fd)
 			if !ok {
 				code = 1
@@ -468,6 +480,7 @@ func (w *World) Exec(op hx.Zs) (out []hx.Zs) {
 			out = append(out, append(hx.Zs{11}, EncodeItems(w.ti.ReadList(v), len(w.ti.Fields))...))
 			w.keep(ret)
 		} else {
+			if os.Getenv("UPD_DEBUG") != "" { fmt.Fprintf(os.Stderr, "ret type %T want elem %v\n", ret, w.ti.Elem) }
 			out = append(out, hx.Zs{11, -1, 0}) // not the data: mis-wired UpdateList
 		}
 	}
